@@ -107,6 +107,9 @@ class Scheduler(BaseScheduler[Job, Callable[..., None]]):
         for job in self.__jobs:
             if job._tzinfo != self.__tzinfo:
                 raise SchedulerError(TZ_ERROR_MSG)
+        # like __schedule: a job without remaining attempts (e.g. first due time
+        # already past its stop) is not kept registered
+        self.__jobs = {job for job in self.__jobs if job.has_attempts_remaining}
 
         self.__n_threads = n_threads
         self.__tz_str = check_tzname(tzinfo=tzinfo)
